@@ -70,6 +70,7 @@ def setCfg (st : St) (kv : String) : Option St :=
         pure { st with cmdc := { st.cmdc with uncheckedKinds := ks } }
     | "cmd.unknownRejected" => do let b ← boolOfString? v; pure { st with cmdc := { st.cmdc with unknownRejected := b } }
     | "cmd.epochBothFields" => do let b ← boolOfString? v; pure { st with cmdc := { st.cmdc with epochBothFields := b } }
+    | "cmd.trimEach" => do let b ← boolOfString? v; pure { st with cmdc := { st.cmdc with trimEach := b } }
     | "cmd.proposeScanTrimmed" => do let b ← boolOfString? v; pure { st with cmdc := { st.cmdc with proposeScanTrimmed := b } }
     | "cat.mergeRule" =>
         if v == "adjacent" then some { st with catc := { st.catc with mergeRule := .adjacent } }
@@ -80,6 +81,11 @@ def setCfg (st : St) (kv : String) : Option St :=
     | "cat.splitEndOp" => do let o ← CmpOp.ofString? v; pure { st with catc := { st.catc with splitEndOp := o } }
     | "cat.splitBumpsVersion" => do let b ← boolOfString? v; pure { st with catc := { st.catc with splitBumpsVersion := b } }
     | "cat.mergeBumpsVersion" => do let b ← boolOfString? v; pure { st with catc := { st.catc with mergeBumpsVersion := b } }
+    | "cat.persistFirst" => do let _ ← boolOfString? v; pure st     -- C24_reload's facts: proofs only; the
+    | "man.snapshotAllRegions" => do let _ ← boolOfString? v; pure st  -- driver's reload is the identity they prove
+    | "cat.memWriters" => some st
+    | "man.regionReplay" => some st
+    | "cat.loadSnapshot" => some st
     | "topo.chkTempl" => do let b ← boolOfString? v; pure { st with topoc := { st.topoc with chkTempl := b } }
     | "topo.chkDockerTempl" => do let b ← boolOfString? v; pure { st with topoc := { st.topoc with chkDockerTempl := b } }
     | "topo.chkStoreZero" => do let b ← boolOfString? v; pure { st with topoc := { st.topoc with chkStoreZero := b } }
@@ -174,6 +180,20 @@ def step (st : St) (toks : List String) : St × String :=
       let out := scanOut st.cmdc p m ks
       let spec := ks.filter (fun k => k = [] || decide (inRange m k))
       (st, keysStr out ++ "\t" ++ keysStr spec)
+    | _, _ => (st, "bad-op")
+  | ["cmd.scanbatch", path, a, b, resps] =>
+    -- one batched command: sub-responses separated by ';' — "n" = not a scan result,
+    -- "-" = empty scan result, otherwise the keys of a scan result
+    let parseResp : String → Option (Option (List Bytes)) := fun r =>
+      if r == "n" then some none else ((splitList r ",").mapM bytesOf?).map some
+    match parseMeta? s!"1:{a}:{b}:1:1", (resps.splitOn ";").mapM parseResp with
+    | some m, some rs =>
+      let p := if path == "read" then Path.read else Path.propose
+      let show_ : List (Option (List Bytes)) → String := fun l =>
+        ";".intercalate (l.map (fun r => match r with | none => "n" | some ks => keysStr ks))
+      let out := scanOutBatch st.cmdc p m rs
+      let spec := rs.map (Option.map (fun ks => ks.filter (fun k => k = [] || decide (inRange m k))))
+      (st, show_ out ++ "\t" ++ show_ spec)
     | _, _ => (st, "bad-op")
   -- ---------------- C24
   | ["cat.init", metas] =>
